@@ -257,4 +257,59 @@ def procCount : Cmd → Nat
   | .ssh _ => 1
   | .rsh _ => 1
 
+/-! ### JSRUN (agent/launch_method/jsrun.py): resource sets
+
+The jsrun scheduler hands over the placement as a list of resource sets: a node, the cores of every
+rank of the set, and the GPUs all ranks of the set share. -/
+
+structure RSet where
+  node  : Nat
+  ranks : List (List Nat)      -- cores of each rank of the set
+  gpus  : List Nat             -- GPUs shared by the ranks of the set
+deriving DecidableEq, Repr
+
+/-- one line of the explicit resource file: `rank: a,b : { host: H; cpu: {..},{..}; gpu: {..} }` -/
+structure ErfLine where
+  ranks : List Nat
+  host  : Nat
+  cpus  : List (List Nat)
+  gpus  : List Nat
+deriving DecidableEq, Repr
+
+/-- `_create_resource_set_file`: rank ids run on from set to set (`base_id += ranks_per_rs`) -/
+def erfFrom : Nat → List RSet → List ErfLine
+  | _,    []      => []
+  | base, r :: rs => { ranks := List.range' base r.ranks.length, host := r.node, cpus := r.ranks, gpus := r.gpus }
+                       :: erfFrom (base + r.ranks.length) rs
+
+def totalRanks (rs : List RSet) : Nat := (rs.map (fun r => r.ranks.length)).sum
+
+structure JsrunOpts where
+  n : Nat                      -- -n: resource sets
+  a : Nat                      -- -a: ranks per resource set
+  c : Nat                      -- -c: physical cores per resource set
+  g : Nat                      -- -g: GPUs per resource set
+  r : Option Nat               -- -r: resource sets per host
+  b : Option (Option Nat)      -- -b: none = absent, some none = `rs`, some (some k) = `packed:k`
+deriving DecidableEq, Repr
+
+/-- the flags of the non-ERF flavour: everything is read off the FIRST resource set -/
+def jsrunOpts (tpc gpn : Nat) (omp : Bool) (rs : List RSet) : Option JsrunOpts :=
+  match rs with
+  | []         => none
+  | first :: _ =>
+    match first.ranks with
+    | []       => none
+    | r0 :: _  =>
+      (fun (cpr : Nat) =>
+        some { n := rs.length, a := first.ranks.length, c := cpr * first.ranks.length, g := first.gpus.length,
+               r := if first.gpus.length = 0 then none
+                    else if rs.length > gpn / first.gpus.length then some (Nat.gcd rs.length (gpn / first.gpus.length))
+                    else some (min rs.length (gpn / first.gpus.length)),
+               b := if first.ranks.length > 1 then (if omp then some (some cpr) else none) else some none })
+        ((r0.length + tpc - 1) / tpc)
+
+/-- `--smpiargs`: only for CUDA tasks; `true` = "-gpu" (MPI), `false` = "off" -/
+def jsrunSmpi (cuda : Bool) (ranks : Nat) : Option Bool := if cuda then some (decide (ranks > 1)) else none
+
 end RPVerif.Launch
